@@ -21,10 +21,11 @@ type cmpSite struct {
 	p    Poly
 	text string
 	lt   types.Type
-	pa   Poly // the same polynomial with locals/parameters named by their type (alpha-invariant)
-	pr   Poly // the named polynomial with single-definition locals substituted (hoisted or inlined locals are immaterial)
-	from string // the function the comparison is written in, when it was reached through an unexported helper
+	pa   Poly            // the same polynomial with locals/parameters named by their type (alpha-invariant)
+	pr   Poly            // the named polynomial with single-definition locals substituted (hoisted or inlined locals are immaterial)
+	from string          // the function the comparison is written in, when it was reached through an unexported helper
 	uses map[string]bool // identifiers the comparison depends on, directly or through the single-definition locals it mentions
+	full bool            // the condition of a plain counting loop `for i := 0; i < E; i++` (the same as ranging over E)
 	rop  token.Token     // the operator under which the path is REFUSED (error / false / non-ACCEPT / continue / break), when the comparison governs such a branch; 0 otherwise
 }
 
@@ -122,7 +123,7 @@ func cmpsIn(pk *packages.Package, fd *ast.FuncDecl, fn string, subst map[types.O
 			})
 		}
 		collectUses(be, 0)
-		out = append(out, cmpSite{fn, be.Pos(), be.Op, polyAdd(l, r, -1), types.ExprString(be), info.TypeOf(be.X), polyAdd(la, ra, -1), pr, "", uses, refusalOp(info, fd, fparents, be)})
+		out = append(out, cmpSite{fn, be.Pos(), be.Op, polyAdd(l, r, -1), types.ExprString(be), info.TypeOf(be.X), polyAdd(la, ra, -1), pr, "", uses, countingLoop(info, fparents, be), refusalOp(info, fd, fparents, be)})
 		return true
 	})
 	return out
@@ -899,7 +900,11 @@ var absTokRe = regexp.MustCompile("\u00a7[^#*()\\[\\],;+ ]+#[0-9]+")
 
 // canonCutAbs: canonCut over the type-named form, made independent of the order in which the locals were met: the
 // numbering of same-typed locals is chosen so that the resulting text is smallest.
+// lastAbsPoly: the (relabelled) polynomial canonCutAbs settled on, for callers that need its orientation.
+var lastAbsPoly Poly
+
 func canonCutAbs(p Poly, op token.Token) string {
+	lastAbsPoly = p
 	base := canonCut(p, op)
 	toks := map[string][]string{} // type -> distinct placeholders
 	seen := map[string]bool{}
@@ -951,6 +956,7 @@ func canonCutAbs(p Poly, op token.Token) string {
 			}
 			if s := canonCut(q, op); best == "" || s < best {
 				best = s
+				lastAbsPoly = q
 			}
 			return
 		}
@@ -1148,4 +1154,80 @@ func branchMark(info *types.Info, a, b ast.Node) int {
 		}
 	}
 	return where
+}
+
+// cutSide: on which side of the cut written by canonCut(p, op) the path is refused/skipped, given the operator rop
+// under which that happens for `p rop 0`: "hi" (Q > 0), "lo" (Q <= 0), "eq", "ne", or "" when unknown.
+func cutSide(p Poly, rop token.Token) string {
+	if rop == 0 || p == nil {
+		return ""
+	}
+	var keys []string
+	for k := range p {
+		if k != "" {
+			keys = append(keys, k)
+		}
+	}
+	sort.Strings(keys)
+	if len(keys) > 0 && p[keys[0]] < 0 {
+		rop = flipOp[rop]
+	}
+	switch rop {
+	case token.GTR, token.GEQ:
+		return "hi"
+	case token.LSS, token.LEQ:
+		return "lo"
+	case token.EQL:
+		return "eq"
+	case token.NEQ:
+		return "ne"
+	}
+	return ""
+}
+
+// countingLoop: be is the condition of `for i := 0; i < E; i++`.
+func countingLoop(info *types.Info, parents map[ast.Node]ast.Node, be *ast.BinaryExpr) bool {
+	f, ok := parents[be].(*ast.ForStmt)
+	if !ok || f.Cond != ast.Expr(be) || be.Op != token.LSS {
+		return false
+	}
+	iv, ok := ast.Unparen(be.X).(*ast.Ident)
+	if !ok {
+		return false
+	}
+	as, ok := f.Init.(*ast.AssignStmt)
+	if !ok || as.Tok != token.DEFINE || len(as.Lhs) != 1 || len(as.Rhs) != 1 {
+		return false
+	}
+	if id, ok := as.Lhs[0].(*ast.Ident); !ok || id.Name != iv.Name {
+		return false
+	}
+	if tv, ok := info.Types[as.Rhs[0]]; !ok || tv.Value == nil || tv.Value.ExactString() != "0" {
+		return false
+	}
+	inc, ok := f.Post.(*ast.IncDecStmt)
+	if !ok || inc.Tok != token.INC {
+		return false
+	}
+	if id, ok := ast.Unparen(inc.X).(*ast.Ident); !ok || id.Name != iv.Name {
+		return false
+	}
+	// the counter is not written in the body
+	written := false
+	ast.Inspect(f.Body, func(n ast.Node) bool {
+		switch x := n.(type) {
+		case *ast.AssignStmt:
+			for _, l := range x.Lhs {
+				if id, ok := ast.Unparen(l).(*ast.Ident); ok && info.ObjectOf(id) == info.ObjectOf(iv) {
+					written = true
+				}
+			}
+		case *ast.IncDecStmt:
+			if id, ok := ast.Unparen(x.X).(*ast.Ident); ok && info.ObjectOf(id) == info.ObjectOf(iv) {
+				written = true
+			}
+		}
+		return !written
+	})
+	return !written
 }
